@@ -169,9 +169,18 @@ def cases(ctx):
             n0 = sum(c for _, c in r0)
             pool.append([a0 + n0, _data_runs(rng, rng.randint(1, 6))])
             pool.append([a0 + n0, _data_runs(rng, rng.randint(1, 6))])
+        if rng.random() < 0.4:       # a block that starts exactly one copier-header length behind the end of another one
+            a0, r0 = pool[0]
+            n0 = sum(c for _, c in r0)
+            pool.append([a0 + n0 + 0x200, _data_runs(rng, rng.randint(1, 6))])
+            pool.append([a0 - 0x200 - 3, _data_runs(rng, 3)] if a0 >= 0x203 else [a0 + n0 + 0x400, _data_runs(rng, 2)])
         blocks = [list(rng.choice(pool)) for _i in range(rng.randint(3, 7))]
         if rng.random() < 0.6 and len(blocks) >= 3:
             blocks[-1] = list(blocks[0])          # the first block verbatim again at the end
+        gaps = [b for b in pool if b[0] == pool[0][0] + sum(c for _, c in pool[0][1]) + 0x200]
+        if gaps:                                   # ... written right behind it, mostly with the copier header on
+            blocks[:2] = [list(pool[0]), list(gaps[0])]
+            copier = rng.random() < 0.7
         out.append({"copier": copier, "blocks": blocks})
     return out
 
